@@ -72,16 +72,16 @@ def user_units(dump, cfg, subs):
     return [one(w) for w in dump['wells']]
 
 
-def cmp_user(a, b, atol_mol, atol_vol):
+def cmp_user(a, b, atol_mol, atol_vol, rel=F(1, 10**6)):
     d = []
     for i, (x, y) in enumerate(zip(a, b)):
         if set(x['cont']) != set(y['cont']):
             d.append(f"substances differ: {sorted(x['cont'])} vs {sorted(y['cont'])}")
             continue
         for k in x['cont']:
-            if abs(x['cont'][k] - y['cont'][k]) > atol_mol + abs(y['cont'][k]) * F(1, 10**6):
+            if abs(x['cont'][k] - y['cont'][k]) > atol_mol + abs(y['cont'][k]) * rel:
                 d.append(f"amount of substance {k} (container/well {i}): {float(x['cont'][k])!r} vs {float(y['cont'][k])!r} mol")
-        if abs(x['vol'] - y['vol']) > atol_vol + abs(y['vol']) * F(1, 10**6):
+        if abs(x['vol'] - y['vol']) > atol_vol + abs(y['vol']) * rel:
             d.append(f"volume (container/well {i}): {float(x['vol'])!r} vs {float(y['vol'])!r} L")
         if (x['max'] is None) != (y['max'] is None) or (x['max'] is not None and abs(x['max'] - y['max']) > abs(y['max']) * F(1, 10**8)):
             d.append(f"capacity (container/well {i}): {x['max']} vs {y['max']}")
@@ -164,6 +164,12 @@ def run(chk, gate, status):
             scale = F(histcheck.tol_scale(prog))
             atol_mol = (F(1, 10**9) * max(pm, F(1, 10**6)) + F(1, 10**14)) * scale * len(prog['ops'])
             atol_vol = (F(1, 10**9) * max(pv, F(1, 10**6)) + F(1, 10**14)) * scale * len(prog['ops'])
+            # ten decimals of a whole mole / litre are 1e-4 umol / 1e-4 uL: a rounding of the moles shows in the volume, one of a
+            # volume in every amount moved by volume (ratios), so under those units values agree to about 1e-3 only; decisions
+            # and error classes are compared strictly under every configuration
+            rel = F(2, 10**3) if (pm >= 1 or pv >= 1) else F(1, 10**6)
+            if pm >= 1:
+                atol_vol += atol_mol * F(1, 5) * 4        # up to ~0.2 L/mol, a few substances
             msgs = []
             for i, (a, b) in enumerate(zip(ref, other)):
                 if a['ok'] != b['ok']:
@@ -175,7 +181,7 @@ def run(chk, gate, status):
                         msgs.append(f"op {i}: {a['exc']} under {base[:2]}, {b['exc']} under {cfg[:2]}")
                     continue
                 for (v, x), (_, y) in zip(a['out'], b['out']):
-                    for t in cmp_user(user_units(x, base, prog['subs']), user_units(y, cfg, prog['subs']), atol_mol, atol_vol):
+                    for t in cmp_user(user_units(x, base, prog['subs']), user_units(y, cfg, prog['subs']), atol_mol, atol_vol, rel):
                         msgs.append(f"op {i} ({prog['ops'][i]['op']}), {base[:2]} vs {cfg[:2]}: {t}")
             if msgs:
                 nfail += 1
@@ -232,7 +238,7 @@ def run(chk, gate, status):
         pm, pv = dsl.PFX[cfg[0][:-3]][1], dsl.PFX[cfg[1][:-1]][1]
         k = histcheck.tol_scale(prog)
         coarse = pm > F(1, 10**6) or pv > F(1, 10**6)     # 10 decimals of a coarse storage unit: results agree to ~1e-6 only
-        d = dsl.compare(results[cfg]['progs'][pi], mobs, atol=1e-8 * k, rtol=1e-5 if coarse else (1e-6 if kinds[pi] == 'stock dilution' else 2e-8))
+        d = dsl.compare(results[cfg]['progs'][pi], mobs, atol=1e-8 * k, rtol=(2e-3 if (pm >= 1 or pv >= 1) else 1e-5) if coarse else (1e-6 if kinds[pi] == 'stock dilution' else 2e-8))
         if d:
             ndis += 1
             if ndis <= 3 and not nfail:
